@@ -231,7 +231,7 @@ def run(tier: str, seed: int) -> int:
     r.assumptions = ["graphql-core get_variable_values / executor are the model of spec-conformant coercion", "httpx.MockTransport is a faithful transport"]
     r.floors = {"variables_payloads": 300, "coercions_ok": 300, "resolver_argument_sets": 300, "required_omission_attempts": 50}
     n = 1500 if tier == "thorough" else 170
-    name_classes = [[], ["frag.uses_variables", "dir.custom"], ["schema.extend"], ["enum.keyword_value"], ["names.keyword"], [], ["names.pydantic_attr"], ["enum.keyword_value", "names.keyword"], ["names.leading_underscore"], ["names.soft_keyword"]]
+    name_classes = [["wrap.deep"], ["frag.uses_variables", "dir.custom"], ["schema.extend"], ["enum.keyword_value"], ["names.keyword"], [], ["names.pydantic_attr"], ["enum.keyword_value", "names.keyword"], ["names.leading_underscore"], ["names.soft_keyword"]]
     cases = [cw.make_case(seed, i, dirty=name_classes[i % len(name_classes)], tier=tier) for i in range(n)]
     for i, c in enumerate(cases):
         if i % 6 == 3:
